@@ -2,7 +2,7 @@
 from trkgen import *
 
 ID = "C13"
-THEOREM_MODULES = ["SimVerif.Props.C13", "SimVerif.Props.C13b", "SimVerif.Tie.Attr", "SimVerif.Tie.Gallery", "SimVerif.Tie.VMetric", "SimVerif.Props.C13s", "SimVerif.Tie.Record", "SimVerif.Props.C01s"]
+THEOREM_MODULES = ["SimVerif.Props.C13", "SimVerif.Props.C13b", "SimVerif.Tie.Attr", "SimVerif.Tie.Gallery", "SimVerif.Tie.VMetric", "SimVerif.Props.C13s", "SimVerif.Tie.Record", "SimVerif.Props.C01s", "SimVerif.Tie.OptimizeV"]
 THEOREM_MODULE = "SimVerif.Props.C13"
 NONTRIVIAL_FLAGS = {"gallery-full", "feature-not-collectable", "continuation", "visual-attachment", "handed-out"}
 RULE = ("VisualSORT / BatchVisualSORT (and SORT kinds for the box histories) lifetimes of up to several hundred updates with history lengths 1..10, visual_max_observations 1..8 (minimal track length <= it), "
